@@ -43,6 +43,7 @@ type Net struct {
 	PS        peerstore.Peerstore
 	mu        sync.Mutex
 	Connected map[peer.ID]bool
+	Addr      map[peer.ID]ma.Multiaddr
 	Notifiees int
 }
 
@@ -65,8 +66,38 @@ func (n *Net) Peers() []peer.ID {
 	}
 	return out
 }
-func (n *Net) Conns() []network.Conn                 { return nil }
-func (n *Net) ConnsToPeer(peer.ID) []network.Conn    { return nil }
+func (n *Net) Conns() []network.Conn { return nil }
+
+// ConnsToPeer gives connected peers that have an address (SetAddr) one connection, so that the
+// routing-table diversity filter of the WAN DHT finds an address to judge.
+func (n *Net) ConnsToPeer(p peer.ID) []network.Conn {
+	n.mu.Lock()
+	defer n.mu.Unlock()
+	if a, ok := n.Addr[p]; ok && n.Connected[p] {
+		return []network.Conn{Conn{P: p, A: a}}
+	}
+	return nil
+}
+
+// SetAddr marks p connected through a connection with remote address a.
+func (n *Net) SetAddr(p peer.ID, a ma.Multiaddr) {
+	n.mu.Lock()
+	defer n.mu.Unlock()
+	if n.Addr == nil {
+		n.Addr = map[peer.ID]ma.Multiaddr{}
+	}
+	n.Addr[p] = a
+	n.Connected[p] = true
+}
+
+type Conn struct {
+	network.Conn
+	P peer.ID
+	A ma.Multiaddr
+}
+
+func (c Conn) RemotePeer() peer.ID           { return c.P }
+func (c Conn) RemoteMultiaddr() ma.Multiaddr { return c.A }
 func (n *Net) LocalPeer() peer.ID                    { return n.Self }
 func (n *Net) Peerstore() peerstore.Peerstore        { return n.PS }
 func (n *Net) Notify(network.Notifiee)               { n.mu.Lock(); n.Notifiees++; n.mu.Unlock() }
@@ -81,6 +112,7 @@ func (n *Net) Close() error                          { return nil }
 type Bus struct {
 	event.Bus
 	FailSubscribe bool
+	FailOn        func() bool // consulted on every Subscribe: true = this one fails
 	mu            sync.Mutex
 	Subs          int
 }
@@ -97,7 +129,7 @@ func (s *busSub) Close() error {
 }
 
 func (b *Bus) Subscribe(typ any, opts ...event.SubscriptionOpt) (event.Subscription, error) {
-	if b.FailSubscribe {
+	if b.FailSubscribe || (b.FailOn != nil && b.FailOn()) {
 		return nil, errors.New("zzc14: event bus subscription failure")
 	}
 	s, err := b.Bus.Subscribe(typ, opts...)
